@@ -43,7 +43,7 @@ type NcbiLayout struct {
 
 // NcbiCorruption damages one token of a valid table.
 type NcbiCorruption struct {
-	Kind string `json:"kind"` // drop | extra | collabel | badscore | rowlabel2 | collabel2 | rowlabelutf8 | collabelutf8
+	Kind string `json:"kind"` // drop | extra | collabel | badscore | rowlabel2 | collabel2 | colmerge | rowlabelutf8 | collabelutf8
 	Row  int    `json:"row"`
 	Col  int    `json:"col"`
 	Text string `json:"text"`
@@ -180,7 +180,7 @@ func genC20(t *rapid.T, thorough bool) C20Case {
 	c.Layout = genNcbiLayout(t)
 	if kind == "ncbi-bad" {
 		c.Corrupt = &NcbiCorruption{
-			Kind: rapid.SampledFrom([]string{"drop", "extra", "collabel", "badscore", "rowlabel2", "collabel2", "rowlabelutf8", "collabelutf8"}).Draw(t, "ckind"),
+			Kind: rapid.SampledFrom([]string{"drop", "extra", "collabel", "badscore", "rowlabel2", "collabel2", "colmerge", "rowlabelutf8", "collabelutf8"}).Draw(t, "ckind"),
 			Row:  rapid.IntRange(0, nr-1).Draw(t, "crow"),
 			Col:  rapid.IntRange(0, nc-1).Draw(t, "ccol"),
 			Text: rapid.SampledFrom([]string{"1.2.3", "--1", "x1", "1e", "abc", "1,5", "0x", "++2", "1e+", ".", "-"}).Draw(t, "ctext"),
@@ -267,6 +267,12 @@ func renderNcbi(c C20Case) []byte {
 	if cr != nil && cr.Kind == "collabel2" {
 		header[cr.Col%len(header)] += "x"
 	}
+	if cr != nil && cr.Kind == "colmerge" && len(header) >= 2 {
+		// two adjacent column labels lose the white space between them: one two-character label,
+		// while every row still has one value per original column
+		j := cr.Col % (len(header) - 1)
+		header = append(header[:j:j], append([]string{header[j] + header[j+1]}, header[j+2:]...)...)
+	}
 	// a label that is one character but several bytes cannot be a (single-byte) matrix key
 	utf8Labels := []string{"\u00e9", "\u20ac", "\u0141", "\U0001F443", "\u00a0"}
 	if cr != nil && cr.Kind == "collabelutf8" {
@@ -305,6 +311,10 @@ func renderNcbi(c C20Case) []byte {
 	}
 	return out
 }
+
+// headerCorruption: the kinds that make the header line itself ill-formed ("collabel" only adds
+// a column, which is wrong for the rows but a fine header).
+var headerCorruption = map[string]bool{"collabel2": true, "colmerge": true, "collabelutf8": true}
 
 func labelKey(b byte) byte {
 	if b == '*' {
@@ -364,7 +374,10 @@ func checkC20(c C20Case, o *Obs) error {
 			want[[2]byte{labelKey(rl), labelKey(cl)}] = v
 		}
 	}
-	if c.Corrupt != nil && len(c.Rows) == 0 {
+	if c.Corrupt != nil && len(c.Rows) == 0 && !headerCorruption[c.Corrupt.Kind] {
+		return nil // a corruption of a row needs a row; a corrupt header is corrupt on its own
+	}
+	if c.Corrupt != nil && c.Corrupt.Kind == "colmerge" && len(c.Cols) < 2 {
 		return nil
 	}
 	o.ClassIf(len(c.Rows) != len(c.Cols), "rectangular")
@@ -682,7 +695,7 @@ func exhaustiveC20(thorough bool, emit func(C20Case) bool) {
 		}
 	}
 	// every single-token corruption of the base table
-	for _, kind := range []string{"drop", "extra", "collabel", "badscore", "rowlabel2", "collabel2", "rowlabelutf8", "collabelutf8"} {
+	for _, kind := range []string{"drop", "extra", "collabel", "badscore", "rowlabel2", "collabel2", "colmerge", "rowlabelutf8", "collabelutf8"} {
 		for r := 0; r < 3; r++ {
 			for col := 0; col < 4; col++ {
 				for _, txt := range []string{"1.2.3", "--1", "x1", "1e", "abc", "1,5"} {
@@ -690,6 +703,14 @@ func exhaustiveC20(thorough bool, emit func(C20Case) bool) {
 					c.Corrupt = &NcbiCorruption{Kind: kind, Row: r, Col: col, Text: txt}
 					if !emit(c) {
 						return
+					}
+					if headerCorruption[kind] && r == 0 {
+						// the corrupt header alone, without any row
+						h := c
+						h.Rows, h.Scores = nil, nil
+						if !emit(h) {
+							return
+						}
 					}
 					if kind != "badscore" {
 						break
